@@ -197,18 +197,26 @@ class SymbolDB(MutableMapping[str, IReflection]):
 
 		return orders
 
-	def _order_keys_recursive(self, for_module_path: str | None, symbol: IReflection, orders: list[str]) -> None:
+	def _order_keys_recursive(self, for_module_path: str | None, symbol: IReflection, orders: list[str], visiting: tuple[str, ...] = ()) -> None:
 		"""参照順にキーの一覧を更新
 
 		Args:
 			for_module_path: 出力モジュールパス
 			symbol: シンボル
 			orders: キーリスト
+			visiting: 依存を展開中の宣言シンボルのキー(循環参照の防止用)
 		Returns:
 			キーリスト
 		"""
 		for attr in symbol.attrs:
-			self._order_keys_recursive(for_module_path, attr, orders)
+			self._order_keys_recursive(for_module_path, attr, orders, visiting)
 
-		if not for_module_path or for_module_path == symbol.types.module_path and symbol.types.fullyname not in orders:
-			orders.append(symbol.types.fullyname)
+		type_key = symbol.types.fullyname
+		if not for_module_path or for_module_path == symbol.types.module_path and type_key not in orders:
+			# 参照先の宣言シンボル自身が依存するシンボル(テンプレート型など)を先に出力する
+			decl_symbol = self.__items.get(type_key)
+			if decl_symbol is not None and decl_symbol is not symbol and type_key not in visiting:
+				self._order_keys_recursive(for_module_path, decl_symbol, orders, (*visiting, type_key))
+
+			if not for_module_path or type_key not in orders:
+				orders.append(type_key)
